@@ -20,6 +20,7 @@ type Opts struct {
 	AllowEmptyVals bool // allow populated-but-empty strings / raw
 	AllowEmptyEnt  bool // allow entries with nothing populated
 	FixedFraming   bool // framing tags 8/9/10/35
+	LongLists      bool // now and then a group with 9..120 entries
 }
 
 func DefaultOpts() Opts {
@@ -27,10 +28,11 @@ func DefaultOpts() Opts {
 }
 
 type G struct {
-	R    *rng.R
-	O    Opts
-	used map[string]bool
-	Tags []string // all tags handed out, for look-alike text
+	manyUsed bool // a group with a long entry list has been generated for this message
+	R        *rng.R
+	O        Opts
+	used     map[string]bool
+	Tags     []string // all tags handed out, for look-alike text
 }
 
 func New(r *rng.R, o Opts) *G { return &G{R: r, O: o, used: map[string]bool{}} }
@@ -265,6 +267,20 @@ func (g *G) templ(depth int, inEntry bool) []*desc.Item {
 	return out
 }
 
+// smallFlat: an entry template of at most four plain fields (long entry lists are generated only
+// for such groups, so that the message stays small enough for the model to be evaluated quickly).
+func smallFlat(tpl []*desc.Item) bool {
+	if len(tpl) > 4 {
+		return false
+	}
+	for _, it := range tpl {
+		if it.Kind != 'K' {
+			return false
+		}
+	}
+	return true
+}
+
 // populate returns a populated copy of a template list.
 func (g *G) populate(tpl []*desc.Item, entry bool) []*desc.Item {
 	out := make([]*desc.Item, len(tpl))
@@ -283,6 +299,12 @@ func (g *G) populate(tpl []*desc.Item, entry bool) []*desc.Item {
 			ne := 0
 			if g.R.Intn(100) < g.O.PopulateProb {
 				ne = g.R.Range(1, g.O.MaxEntries)
+				// now and then a count of two or three digits (once per message at most: the size
+				// of the message is the product of the counts along a path)
+				if g.O.LongLists && !g.manyUsed && smallFlat(it.Tpl) && g.R.Chance(1, 8) {
+					g.manyUsed = true
+					ne = []int{9, 10, 10, 11, 12, 25, 25, 100}[g.R.Intn(8)]
+				}
 			}
 			grp := &desc.Item{Kind: 'G', Tag: it.Tag, Tpl: it.Tpl}
 			for e := 0; e < ne; e++ {
@@ -296,9 +318,17 @@ func (g *G) populate(tpl []*desc.Item, entry bool) []*desc.Item {
 
 // Message generates a random template and a population of it.
 func (g *G) Message() *desc.Msg {
+	g.manyUsed = false
 	m := &desc.Msg{BsTag: "8", BlTag: "9", CsTag: "10", MtTag: "35", Bs: "FIX.4.4"}
 	if !g.O.FixedFraming && g.R.Chance(1, 3) {
-		m.BsTag, m.BlTag, m.CsTag, m.MtTag = g.FreshTag(), g.FreshTag(), g.FreshTag(), g.FreshTag()
+		// four fresh tags (look-alikes of each other now and then), dealt to the four roles in a
+		// random order so that every role can be a decimal suffix or prefix of every other
+		ft := []string{g.FreshTag(), g.FreshTag(), g.FreshTag(), g.FreshTag()}
+		for i := 3; i > 0; i-- {
+			j := g.R.Intn(i + 1)
+			ft[i], ft[j] = ft[j], ft[i]
+		}
+		m.BsTag, m.BlTag, m.CsTag, m.MtTag = ft[0], ft[1], ft[2], ft[3]
 	} else {
 		g.Reserve("8")
 		g.Reserve("9")
